@@ -150,9 +150,9 @@ Proof.
         rewrite N.eqb_refl. reflexivity.
   - destruct (lookup k (recs s)) as [r|] eqn:E; [|intro H; inversion H; subst; assumption].
     destruct (ralive r) eqn:Al; intro H; inversion H; subst; [|assumption].
-    eapply good_same_slice; eauto. intros k' Hk'. destruct (N.eq_dec k' k) as [->|Hne].
-    + erewrite alive_replace_same; eauto.
-    + eapply keeps_replace; eauto.
+    destruct (Z.eqb (rexp r) 0).
+    + eapply good_rem; eauto; [apply keeps_replace; reflexivity | intros x Hx; apply rem_In in Hx; tauto].
+    + eapply good_ins; eauto; [apply keeps_replace; reflexivity|]. erewrite alive_replace_same; eauto.
   - destruct (lookup k (recs s)) as [r|] eqn:E; [|intro H; inversion H; subst; assumption].
     destruct (ralive r) eqn:Al; intro H; inversion H; subst; [|assumption].
     destruct (Z.eqb e 0).
@@ -325,17 +325,15 @@ Proof.
     + destruct (lookup k (recs s)) as [x|] eqn:E; [|intro H; inversion H; subst; eapply inv_mk; eauto].
       destruct (still_there cfg_now k g (recs s)) eqn:ST; [|intro H; inversion H; subst; eapply inv_mk; eauto].
       unfold still_there in ST. rewrite E in ST. simpl in ST. apply andb_true_iff in ST as [Al _].
-      intro H; inversion H; subst; clear H. rewrite Al. simpl. rewrite orb_false_r.
+      intro H; inversion H; subst; clear H. rewrite Al. simpl.
       set (e := match nexp with Some e => e | None => rexp x end).
       set (x' := {| rk := k; rst := nst; rgrp := rgrp x; rexp := e; rg := rg x; ralive := true |}).
       eapply inv_mk; eauto; [|rewrite Hb; reflexivity].
       assert (KA : keeps_alive (recs s) (replace k x' (recs s)) k) by (apply keeps_replace; reflexivity).
       assert (AK : alive_k k (replace k x' (recs s)) = true) by (erewrite alive_replace_same; eauto).
-      destruct (negb (Z.eqb e (rexp x))).
-      * destruct (Z.eqb e 0).
-        -- eapply good_rem; eauto. intros y Hy; apply rem_In in Hy; tauto.
-        -- eapply good_ins; eauto.
-      * eapply good_same_slice; eauto. intros k' Hk'. destruct (N.eq_dec k' k) as [->|Hne]; auto.
+      destruct (Z.eqb e 0).
+      * eapply good_rem; eauto. intros y Hy; apply rem_In in Hy; tauto.
+      * eapply good_ins; eauto.
   - destruct (reindex cfg_now sel (recs s) (slice s) (cl s)) as [sl cl'] eqn:R.
     intro H; inversion H; subst. eapply inv_mk; eauto. eapply good_reindex; eauto.
 Qed.
